@@ -481,10 +481,22 @@ func (e *Env) evalBinary(x *Expr) TV {
 			return TV{Scalar{Sub(l, r)}, nil}
 		case "*":
 			return TV{Scalar{Mul(l, r)}, nil}
-		case "/":
-			return TV{Scalar{tdiv(l, r)}, nil}
-		case "%":
-			return TV{Scalar{Sub(l, Mul(r, tdiv(l, r)))}, nil}
+		case "/", "%":
+			if r.Op == "int" && r.Int.Sign() > 0 || l.hasBound || r.hasBound {
+				if x.Op == "/" {
+					return TV{Scalar{tdiv(l, r)}, nil}
+				}
+				return TV{Scalar{Sub(l, Mul(r, tdiv(l, r)))}, nil}
+			}
+			tmp := &State{}
+			q, m := e.fv.divmod(tmp, l, r)
+			for _, f := range tmp.pc {
+				e.fv.side = append(e.fv.side, Implies(Neq(r, IntLit(0)), f))
+			}
+			if x.Op == "/" {
+				return TV{Scalar{q}, nil}
+			}
+			return TV{Scalar{m}, nil}
 		case "<":
 			return TV{Scalar{Lt(l, r)}, nil}
 		case "<=":
@@ -752,6 +764,15 @@ func (e *Env) evalCall(x *Expr) TV {
 		case SliceV:
 			return TV{Scalar{v.Arr}, nil}
 		}
+	case "content":
+		// abstract identity of the byte string held by a string or []byte value
+		v := arg(0).V.(SliceV)
+		elemSort := e.fv.l.intSort(types.Typ[types.Uint8])
+		return TV{Scalar{App("content", IntSort, e.st.heap.elemRow(elemSort, 0, v.Arr), v.Off, v.Len)}, nil}
+	case "crc32ieee":
+		r := App("crc32ieee", IntSort, e.promote(arg(0)))
+		e.fv.side = append(e.fv.side, And(Le(IntLit(0), r), Le(r, IntLit(4294967295))))
+		return TV{Scalar{r}, nil}
 	case "elemref":
 		a := arg(0)
 		return TV{Scalar{ElemRef(a.V.(Scalar).T, e.idxOf(arg(1)))}, nil}
@@ -790,13 +811,20 @@ func (e *Env) evalCall(x *Expr) TV {
 		return TV{Scalar{e.fv.valuesEqualSpec(a.V, b.V, a.T)}, nil}
 	case "int", "int64", "uint", "uint32", "uint64", "int32", "uint8", "byte", "uint16":
 		a := arg(0)
+		t := types.Universe.Lookup(x.Name).Type()
 		if e.bv() {
-			t := types.Universe.Lookup(x.Name).Type()
 			w := basicWidth(t.Underlying().(*types.Basic))
 			p := e.promote(a)
 			return TV{Scalar{BVExtract(w-1, 0, p)}, t}
 		}
-		return TV{a.V, nil}
+		if a.T != nil && isInteger(a.T) {
+			flo, fhi := e.fv.intRange(a.T)
+			tlo, thi := e.fv.intRange(t)
+			if flo.Cmp(tlo) >= 0 && fhi.Cmp(thi) <= 0 {
+				return TV{a.V, t}
+			}
+		}
+		return TV{Scalar{e.fv.wrap(a.V.(Scalar).T, t)}, t}
 	case "pow2":
 		if e.bv() {
 			one := BVLit(big.NewInt(1), specBV)
